@@ -1127,6 +1127,21 @@ func (m *Monitors) judgeOwnNewView(n *Node, nm *nodeMon, msg *ref.Msg) {
 			bestV, bestHash, anyProof = vt.Proof.PPRef.V, vt.Proof.PPRef.Hash, true
 		}
 	}
+	// C07, leader side: "proposes the block certified by the highest valid prepared proof among those votes"
+	lockV, lockHash, haveLock := uint64(0), []byte(nil), false
+	for id, vt := range emb {
+		if (id == n.Id || ref.VoteAuthentic(w.Keys, c, uint64(spi.InstanceId), msg.H, msg.V, vt)) && vt.Proof != nil && vt.Proof.PPRef != nil && ref.ProofValid(w.Keys, c, uint64(spi.InstanceId), msg.H, msg.V, vt.Proof) {
+			if !haveLock || vt.Proof.PPRef.V > lockV {
+				lockV, lockHash, haveLock = vt.Proof.PPRef.V, vt.Proof.PPRef.Hash, true
+			}
+		}
+	}
+	if haveLock {
+		m.Stats["C07 leader proposals with a certified block judged"]++
+		if !bytes.Equal(lockHash, msg.Hash) {
+			m.violate("C07", "leader-proposal-is-not-the-certified-block", "node %s sent NEW_VIEW h=%d v=%d proposing %x although a vote it embeds carries a valid prepared proof (view %d) for %x", n.Id, msg.H, msg.V, short(msg.Hash), lockV, short(lockHash))
+		}
+	}
 	if anyProof {
 		m.Stats["C09 new views re-proposing a lock"]++
 		if !bytes.Equal(bestHash, msg.Hash) {
